@@ -1322,6 +1322,9 @@ fn own_error(side: usize, kind: Kind, peer_close: bool) -> Result<ConnErr, Strin
         let d = poll_driver(&mut sc.conn, DriverOp::Full, &w);
         let stored = match d {
             DriverOut::Err(c) => c,
+            // the call reported a connection error and the driver, polled afterwards, does not: the
+            // statement's "the driver reports it on every later call" in the trivial schedule
+            other if reported.is_some() => return Err(format!("solo {}: the call reported {:?} but the driver returned {:?} afterwards", kind.name(), reported, other)),
             other => return Err(format!("solo {}: the driver returned {:?} after the call", kind.name(), other)),
         };
         if let Some(r) = reported {
